@@ -8,7 +8,7 @@ use crate::model::{LossMode, Violation};
 use crate::ringh::RingH;
 use crate::rng::Rng;
 use crate::scenario::{Ev, Knobs, Policy, Scenario};
-use crate::wire::{op_info, status, Kind};
+use crate::wire::{self, op_info, status, Kind};
 use serde_json::{json, Value};
 
 pub struct C14;
@@ -306,7 +306,47 @@ fn gen_c15(run_seed: u64, tier: Tier) -> Scenario {
     }
     let mut wrng = Rng::sub(run_seed, "workload");
     let mut g = Gen::new(&mut wrng, p);
-    g.scenario(knobs)
+    let mut sc = g.scenario(knobs);
+    // one run in three: the limit is exactly the accounted usage this very workload reaches
+    // after one of its stores (found by a dry run under the generous limit), so that the
+    // counter *equals* the limit once - "exceeds" and "reaches" are different conditions
+    let mut brng = Rng::sub(run_seed, "exact-limit");
+    if brng.chance(1, 3) {
+        let trace = accounted_trace(&sc);
+        let mut best = 0u64;
+        let mut cands = Vec::new();
+        for (acc, is_store) in trace {
+            if acc > best {
+                best = acc;
+                if is_store && acc >= 3 * live {
+                    cands.push(acc);
+                }
+            }
+        }
+        if !cands.is_empty() {
+            sc.knobs.memory_limit = cands[brng.usize(cands.len().min(8))];
+        }
+    }
+    sc
+}
+
+/// Accounted usage after every command of a dry run (and whether the command was a store).
+fn accounted_trace(sc: &Scenario) -> Vec<(u64, bool)> {
+    let sc = &one_by_one(sc);
+    let mut ring = RingH::new(&sc.knobs);
+    let mut d = Driver::new(&mut ring, sc.knobs.item_limit, 0, LossMode::ChargeC15).with_slack(1);
+    let mut out = Vec::new();
+    let mut last_store = false;
+    for ev in &sc.events {
+        if let Ev::Send { req, .. } = ev {
+            last_store = matches!(op_info(req.opcode).kind, Kind::Set | Kind::Add | Kind::Replace);
+        }
+        d.step(ev);
+        if let Ev::Deliver { .. } = ev {
+            out.push((d.exec.probe().unwrap_or_default().accounted.unwrap_or(0), last_store));
+        }
+    }
+    out
 }
 
 /// Drive command by command; after each, compare the accounted usage (hook) with
@@ -325,6 +365,14 @@ fn run_c15(sc: &Scenario, keep_log: bool) -> (Vec<Violation>, Outcome) {
         let mut max_stored = 0u64;
         let mut pending: Vec<(usize, usize)> = Vec::new();
         let mut seen_sigs: std::collections::BTreeSet<&'static str> = Default::default();
+        let mut all_keys: Vec<Vec<u8>> = Vec::new();
+        for ev in &sc.events {
+            if let Ev::Send { req, .. } = ev {
+                if !req.key.is_empty() && !all_keys.contains(&req.key) {
+                    all_keys.push(req.key.clone());
+                }
+            }
+        }
         for ev in &sc.events {
             if let Ev::Send { c, .. } = ev {
                 let idx = d.conns.get(*c).map(|x| x.frames.len()).unwrap_or(0);
@@ -340,9 +388,50 @@ fn run_c15(sc: &Scenario, keep_log: bool) -> (Vec<Violation>, Outcome) {
                 .map(|(c, idx)| d.conns.get(*c).and_then(|x| x.frames.get(*idx)).map(|f| d.model.presence(&f.req.key)).unwrap_or(crate::model::Presence::Absent))
                 .collect();
             let single = pending.len() == 1;
+            let stored_before: Vec<Option<u64>> = if single && matches!(ev, Ev::Deliver { .. }) { all_keys.iter().map(|k| d.exec.record_len(k)).collect() } else { Vec::new() };
             d.step(ev);
             if let Ev::Deliver { .. } = ev {
                 let now = d.exec.probe().unwrap_or_default();
+                // ---- direct eviction oracle: a record of a key the command does not address
+                // vanished during a store, i.e. it was evicted. The policy may evict only when
+                // the usage it accounts, including the record being written, exceeds the limit.
+                if single && !stored_before.is_empty() {
+                    let (c, idx) = pending[0];
+                    let f = d.conns[c].frames[idx].clone();
+                    let info = op_info(f.req.opcode);
+                    let stores = matches!(info.kind, Kind::Set | Kind::Add | Kind::Replace | Kind::Append | Kind::Prepend | Kind::Incr | Kind::Decr);
+                    if stores {
+                        let own_before = before_len[0].unwrap_or(24);
+                        // upper bound of the record the command can have handed to the policy
+                        let written_ub: u64 = match info.kind {
+                            Kind::Set | Kind::Add | Kind::Replace => 24 + f.req.value.len() as u64,
+                            Kind::Append | Kind::Prepend => own_before + f.req.value.len() as u64,
+                            _ => 24 + 20,
+                        };
+                        let acc_prev = prev.accounted.unwrap_or(0);
+                        for (k, b) in all_keys.iter().zip(stored_before.iter()) {
+                            if *k == f.req.key || b.is_none() {
+                                continue;
+                            }
+                            if d.exec.record_len(k).is_none() {
+                                out.count("evictions_observed", 1);
+                                if acc_prev.saturating_add(written_ub) <= limit && seen_sigs.insert("evicted-although-accounted-usage-within-limit") {
+                                    viols.push(Violation::new(
+                                        "C15",
+                                        "evicted-although-accounted-usage-within-limit",
+                                        format!("a {:?} of key {} evicted the record of key {} ({} bytes) although the accounted usage {} plus the record being written (at most {}) does not exceed the limit {} ({} bytes in {} records were stored)", info.kind, wire::hex_short(&f.req.key, 8), wire::hex_short(k, 8), b.unwrap_or(0), acc_prev, written_ub, limit, prev.stored_bytes, prev.items),
+                                    ));
+                                }
+                                if acc_prev.saturating_add(written_ub) == limit.saturating_add(0) {
+                                    out.count("usage_equals_limit_probe", 1);
+                                }
+                            }
+                        }
+                        if acc_prev.saturating_add(24 + f.req.value.len() as u64) == limit && matches!(info.kind, Kind::Set | Kind::Add | Kind::Replace) {
+                            out.count("store_reaching_exactly_the_limit", 1);
+                        }
+                    }
+                }
                 max_stored = max_stored.max(now.stored_bytes);
                 let acc_prev = prev.accounted.unwrap_or(0);
                 let acc_now = now.accounted.unwrap_or(0);
@@ -496,7 +585,7 @@ impl Check for C15 {
         exec_c15(&sc, case.data.get("log").is_some())
     }
     fn rule(&self) -> String {
-        "seeded long workloads (30..10000 commands, every command kind) over a live set of 2-5 small items under random eviction with a limit 20-1000x the largest possible live set; behavioural oracle: no key the reference model says is live ever misses; accounting oracle (hook H4 accessor): after every command accounted usage minus the sum of Record::len() must not change, and every change is attributed to (command kind, outcome, cause). non-trivial = a command's outcome depended on earlier state; distinct = distinct event-log fingerprints".into()
+        "seeded long workloads (30..10000 commands, every command kind) over a live set of 2-5 small items under random eviction with a limit 20-1000x the largest possible live set (one run in three: a limit that the accounted usage of this very workload reaches exactly, found by a dry run); direct oracle: a record of a key the command does not address vanishes during a store (= eviction) only if accounted usage + record being written exceeds the limit; behavioural oracle: no key the reference model says is live ever misses; accounting oracle (hook H4 accessor): after every command accounted usage minus the sum of Record::len() must not change, and every change is attributed to (command kind, outcome, cause). non-trivial = a command's outcome depended on earlier state; distinct = distinct event-log fingerprints".into()
     }
     fn assumptions(&self) -> Vec<String> {
         vec!["the cfg(memcrs_verif) accessor RandomPolicy::verif_memory_usage reads the counter without changing behaviour".into(), "ring H (sequential); the concurrent side of the accounting is not explored by this check".into()]
